@@ -22,7 +22,7 @@ use truc::record::{
 use vharness::{arg_value, vt::*, Rng};
 
 /// (type expression, Copy, has a token, owns a ledger entry)
-const PALETTE: [(&str, bool, bool); 13] = [
+const PALETTE: [(&str, bool, bool); 15] = [
     ("u8", true, true),
     ("u16", true, true),
     ("u32", true, true),
@@ -36,6 +36,8 @@ const PALETTE: [(&str, bool, bool); 13] = [
     ("vharness::vt::Nc", false, true),
     ("Option<u32>", true, true),
     ("[u64; 0]", true, false), // zero-size, alignment 8
+    ("Option<String>", false, true), // owns an allocation or not: clone_from between the two shapes
+    ("f64", true, true),
 ];
 
 fn add(b: &mut NativeRecordDefinitionBuilder<HostTypeResolver>, ty: usize, name: String, uninit: bool) -> Result<DatumId, String> {
@@ -65,6 +67,8 @@ fn add(b: &mut NativeRecordDefinitionBuilder<HostTypeResolver>, ty: usize, name:
         10 => go!(nc Nc),
         11 => go!(Option<u32>),
         12 => go!([u64; 0]),
+        13 => go!(nc Option<String>),
+        14 => go!(f64),
         _ => unreachable!(),
     }
 }
@@ -170,7 +174,7 @@ fn gen_spec(rng: &mut Rng) -> String {
             };
             let mut ty = rng.below(PALETTE.len());
             if flavor < 2 {
-                const PLAIN: [usize; 8] = [0, 1, 2, 3, 4, 9, 11, 12];
+                const PLAIN: [usize; 9] = [0, 1, 2, 3, 4, 9, 11, 12, 14];
                 ty = PLAIN[rng.below(PLAIN.len())];
             }
             let uninit = PALETTE[ty].1 && match flavor {
@@ -302,6 +306,17 @@ fn driver(k: usize, d: &Def, with_andout: bool) -> String {
         }
         writeln!(o, "      chk_r{v}(&c, 70, false, out, \"clone unaffected by writes to its source\"); drop(r); chk_r{v}(&c, 70, false, out, \"clone intact after its source is dropped\");").unwrap();
         writeln!(o, "      let mut t = {m}::Record{v}::new(mk_u{v}(80)); t.clone_from(&c); chk_r{v}(&t, 70, false, out, \"clone_from makes the target equal to the source\"); chk_r{v}(&c, 70, false, out, \"clone_from leaves the source intact\"); drop(c); chk_r{v}(&t, 70, false, out, \"clone_from target independent of the source\"); drop(t); checkpoint(out, M, \"clone / clone_from (variant {v})\"); n += 1; }}").unwrap();
+        // H2: clone_from between values of different shapes (None / empty against Some / non-empty): a source whose
+        // fields were all emptied onto a full target, then a full source onto that emptied record
+        writeln!(o, "    {{ let mut c = {m}::Record{v}::new(mk_u{v}(72)); let mut t = {m}::Record{v}::new(mk_u{v}(82));").unwrap();
+        for f in fs.iter() {
+            writeln!(o, "      c.{n}_mut().hollow();", n = f.name).unwrap();
+        }
+        writeln!(o, "      t.clone_from(&c);").unwrap();
+        for f in fs.iter() {
+            writeln!(o, "      if <{ty} as Vt>::HOLLOW && !t.{n}().is_hollow() {{ out.push(format!(\"FAIL {{}} C16 clone_from (variant {v}): field {n} of the target keeps its previous value although the source's is empty\", M)); }}", n = f.name, ty = tyx(f)).unwrap();
+        }
+        writeln!(o, "      let full = {m}::Record{v}::new(mk_u{v}(73)); c.clone_from(&full); chk_r{v}(&c, 73, false, out, \"clone_from of a full source onto an emptied target\"); chk_r{v}(&full, 73, false, out, \"clone_from leaves the source intact\"); drop(full); drop(c); drop(t); checkpoint(out, M, \"clone_from between empty and full values (variant {v})\"); n += 1; }}").unwrap();
         for kpanic in 1..=(nled + 1) {
             writeln!(o, "    {{ let r = {m}::Record{v}::new(mk_u{v}(90)); CLONE_PANIC_IN.with(|c| c.set({kpanic})); let res = catch_unwind(AssertUnwindSafe(|| r.clone())); CLONE_PANIC_IN.with(|c| c.set(0)); chk_r{v}(&r, 90, false, out, \"source intact after a panicking clone\"); drop(res); drop(r); checkpoint(out, M, \"clone panicking at the {kpanic}-th tracked field (variant {v})\"); n += 1; }}").unwrap();
             writeln!(o, "    {{ let r = {m}::Record{v}::new(mk_u{v}(91)); let mut t = {m}::Record{v}::new(mk_u{v}(92)); CLONE_PANIC_IN.with(|c| c.set({kpanic})); let res = catch_unwind(AssertUnwindSafe(|| t.clone_from(&r))); CLONE_PANIC_IN.with(|c| c.set(0)); drop(res); drop(r); drop(t); checkpoint(out, M, \"clone_from panicking at the {kpanic}-th tracked field (variant {v})\"); n += 1; }}").unwrap();
@@ -314,7 +329,7 @@ fn driver(k: usize, d: &Def, with_andout: bool) -> String {
         writeln!(o, "      let val: serde_json::Value = serde_json::from_str(&json).unwrap(); let arr = val.as_array().cloned().unwrap_or_default();").unwrap();
         writeln!(o, "      if arr.len() != {nfields} {{ out.push(format!(\"FAIL {{}} C15 variant {v} serialises {{}} elements for {nfields} fields\", M, arr.len())); }}").unwrap();
         // declaration order: element i is the token of the i-th field
-        for (i, f) in fs.iter().enumerate().filter(|(_, f)| has_tok(f) && f.ty != 4 && f.ty != 8) {
+        for (i, f) in fs.iter().enumerate().filter(|(_, f)| has_tok(f) && f.ty != 4 && f.ty != 8 && f.ty < 13) {
             writeln!(o, "      if arr.get({i}).and_then(|x| x.as_u64()) != Some(tk(100, {id}) as u64) {{ out.push(format!(\"FAIL {{}} C15 element {i} of the serialised variant {v} is {{:?}}, not the value of field {n}\", M, arr.get({i}))); }}", id = f.id, n = f.name).unwrap();
         }
         writeln!(o, "      for cut in 0..arr.len() {{ let short = serde_json::Value::Array(arr[..cut].to_vec()).to_string(); if serde_json::from_str::<{m}::Record{v}>(&short).is_ok() {{ out.push(format!(\"FAIL {{}} C15 variant {v}: JSON input with {{}} of {nfields} elements was accepted\", M, cut)); }} if serde_json::from_value::<{m}::Record{v}>(serde_json::Value::Array(arr[..cut].to_vec())).is_ok() {{ out.push(format!(\"FAIL {{}} C15 variant {v}: JSON value with {{}} of {nfields} elements was accepted\", M, cut)); }} }}").unwrap();
@@ -360,6 +375,24 @@ fn driver(k: usize, d: &Def, with_andout: bool) -> String {
                     writeln!(o, "      fill_uninit{v}(&mut r, {base}, &[{}]); chk_r{v}(&r, {base}, false, out, \"C05 conversion {pv}->{v} form {form} then writes of the uninitialised added fields\");", plus_uninit_ids.join(", ")).unwrap();
                 }
                 writeln!(o, "      drop(r); checkpoint(out, M, \"conversion {pv}->{v} form {form}\"); n += 1; }}").unwrap();
+            }
+            // F2: the same conversion applied to a whole Vec in place (the library's main use; C05_vec_in_place):
+            // three records with their own values, spare capacity, the k-th element gets its own added values
+            {
+                let plus_vec = plus_full.replace("BASE", "bj");
+                writeln!(o, "    {{ let base = 20u32; let mut vin: Vec<{m}::Record{pv}> = Vec::with_capacity(5); for j in 0..3u32 {{ vin.push({m}::Record{pv}::new(mk_u{pv}(base + 40 * j))); }}").unwrap();
+                writeln!(o, "      let (ptr, cap) = (vin.as_ptr() as usize, vin.capacity()); let ctr = std::sync::atomic::AtomicU32::new(0);").unwrap();
+                writeln!(o, "      let vout: Vec<{m}::Record{v}> = truc_runtime::convert::convert_vec_in_place(vin, |rec: {m}::Record{pv}, _| {{ let bj = base + 40 * ctr.fetch_add(1, std::sync::atomic::Ordering::SeqCst); let _ = bj; truc_runtime::convert::VecElementConversionResult::Converted((rec, {plus_vec}).into()) }});").unwrap();
+                writeln!(o, "      if vout.len() != 3 {{ out.push(format!(\"FAIL {{}} C05 conversion {pv}->{v} of a Vec in place: {{}} records instead of 3\", M, vout.len())); }}").unwrap();
+                writeln!(o, "      if vout.as_ptr() as usize != ptr || vout.capacity() != cap {{ out.push(format!(\"FAIL {{}} C03 conversion {pv}->{v} of a Vec in place: the vector of the next variant is not the input's allocation\", M)); }}").unwrap();
+                writeln!(o, "      for (j, r) in vout.iter().enumerate() {{ chk_r{v}(r, base + 40 * j as u32, false, out, \"C05 conversion {pv}->{v} of a Vec in place\"); }}").unwrap();
+                writeln!(o, "      drop(vout); checkpoint(out, M, \"conversion {pv}->{v} of a Vec in place\"); n += 1; }}").unwrap();
+                // ... and with a converter that gives up at the second element (it drops it and returns an error)
+                writeln!(o, "    {{ let base = 21u32; let mut vin: Vec<{m}::Record{pv}> = Vec::with_capacity(4); for j in 0..3u32 {{ vin.push({m}::Record{pv}::new(mk_u{pv}(base + 40 * j))); }}").unwrap();
+                writeln!(o, "      let ctr = std::sync::atomic::AtomicU32::new(0);").unwrap();
+                writeln!(o, "      let res: Result<Vec<{m}::Record{v}>, u32> = truc_runtime::convert::try_convert_vec_in_place(vin, |rec: {m}::Record{pv}, _| {{ let j = ctr.fetch_add(1, std::sync::atomic::Ordering::SeqCst); if j == 1 {{ drop(rec); return Err(7u32); }} let bj = base + 40 * j; let _ = bj; Ok(truc_runtime::convert::VecElementConversionResult::Converted((rec, {plus_vec}).into())) }});").unwrap();
+                writeln!(o, "      match res {{ Err(7) => {{}} Err(e) => out.push(format!(\"FAIL {{}} C05 failing conversion {pv}->{v} of a Vec in place: error {{}} instead of 7\", M, e)), Ok(v) => {{ out.push(format!(\"FAIL {{}} C05 failing conversion {pv}->{v} of a Vec in place: returned {{}} records although the converter failed\", M, v.len())); drop(v); }} }}").unwrap();
+                writeln!(o, "      checkpoint(out, M, \"failing conversion {pv}->{v} of a Vec in place\"); n += 1; }}").unwrap();
             }
         }
     }
@@ -429,6 +462,9 @@ pub fn checkpoint(out: &mut Vec<String>, m: usize, what: &str) {
                 out.push(format!("FAIL {} C15 {}: {}", m, what, e));
             }
         }
+        if what.contains("of a Vec in place") {
+            out.push(format!("FAIL {} C05 {}: {}", m, what, e));
+        }
     }
     let live = take_live();
     if !live.is_empty() {
@@ -439,6 +475,9 @@ pub fn checkpoint(out: &mut Vec<String>, m: usize, what: &str) {
         }
         if what.contains("serde") {
             out.push(format!("FAIL {} C15 {}: values were never destroyed: {}", m, what, live.join(", ")));
+        }
+        if what.contains("of a Vec in place") {
+            out.push(format!("FAIL {} C05 {}: values were never destroyed: {}", m, what, live.join(", ")));
         }
     }
     #[cfg(truc_verif)]
